@@ -367,5 +367,11 @@ func main() {
 	}
 	u.WriteString("].\n")
 	writeIfChanged(filepath.Join(*out, "Upper.v"), u.String())
+	// integer-only functions translated statement by statement
+	var fn strings.Builder
+	fn.WriteString("(* GENERATED by /verif/translator from internal/util/util.go. Do not edit. *)\n")
+	fn.WriteString("From Coq Require Import ZArith Bool.\nOpen Scope Z_scope.\n\n")
+	fn.WriteString(intFunc(*repo, filepath.Join("internal", "util", "util.go"), "RangeToIndexes"))
+	writeIfChanged(filepath.Join(*out, "Funcs.v"), fn.String())
 	fmt.Printf("translator: %d predicates, %d intervals\n", len(predOrder), total)
 }
